@@ -10,3 +10,12 @@ package model
 //@   modifies nothing
 //@   ensures [absent-when-empty] len(value) == 0 ==> r0 == nil
 //@   ensures [carries-the-value] len(value) != 0 ==> r0 != nil && fresh(r0) && r0.Type == XRayTracingType && r0.XRayTracing.Value == value
+
+// C20: what is handed on as the error cause is the re-serialised document only if that is within the limit;
+// otherwise it is the cropped one
+//@ event ErrorCauseCropped = ret rapi/model.(*ErrorCause).croppedJSON
+//@ const MaxErrorCauseSizeBytes == 65536
+//@ func ValidatedErrorCauseJSON
+//@   ensures [within-the-limit-unless-cropped] r1 == nil && delta(ErrorCauseCropped) == 0 ==> len(r0) <= MaxErrorCauseSizeBytes
+//@   ensures [cropped-is-returned-as-is] r1 == nil && delta(ErrorCauseCropped) == 1 ==> r0 == lastret(ErrorCauseCropped)
+//@   ensures [cropped-at-most-once] delta(ErrorCauseCropped) <= 1
